@@ -192,7 +192,7 @@ class TlsChangeCipherSpecMessage(TlsSubprotocolMessageBase):
 
 @attr.s
 class TlsApplicationDataMessage(TlsSubprotocolMessageBase):
-    data = attr.ib(attr.validators.instance_of(bytearray))
+    data = attr.ib(validator=attr.validators.instance_of((bytes, bytearray)))
 
     @classmethod
     def _parse(cls, parsable):
